@@ -29,6 +29,29 @@ CHECKS = {
    "runtime monitoring: adversarial schedulers in the hook handler, access-count oracle", "3.3, 4/C18"),
 }
 
+CHECKS.update({
+ "C05": ("exploration",
+   "Millions of (record, realtime reading, monotonic reading) vectors, stratified at every boundary the statement names, are published through the real ShmWriter and answered by the real ClockBoundClient::now() under a virtual clock; an exact-integer oracle checks order, exact centring, the half-width window [bound+floor(d*age)-1, bound+ceil(d*age)] and monotone growth along chains. Release and overflow-checked debug builds; a sample also goes through libclockbound (C, ASan+UBSan) and an independent Python exact oracle.",
+   "f64 rounding of the drift product tolerated at 2^-50 relative; +-68 years, bounds < 2^60.",
+   "runtime monitoring: input sweep of the public now() under an interposed clock, exact reference oracle", "3.2, 4/C05"),
+ "C06": ("exploration",
+   "Same rig; all (stored status x region x edge offset x void-after kind) cells, readings at -1/0/+1 ns around as_of, as_of+5 s, void_after and the blur edge; oracle is the decision table of the statement.",
+   "Records with void_after >= as_of + 5 s only, as the statement says.",
+   "runtime monitoring: boundary-value sweep of now() under an interposed clock, decision-table oracle", "4/C06"),
+ "C14": ("exploration",
+   "Same rig; readings at -2..+2 ns around as_of minus the blur, deep breaches, range extremes, drift at and beyond 1e9; every call under catch_unwind in release and overflow-checked debug builds, so a panic or overflow is an observed outcome; error kinds compared with the statement; Rust and C answers compared.",
+   "Blur is 1000 ns as implemented; exactly at the edge either answer is accepted.",
+   "runtime monitoring: edge sweep of now() with panic/overflow detection (debug overflow checks, catch_unwind, ASan/UBSan on the C side)", "4/C14"),
+ "C16": ("exploration",
+   "A corpus of segment files (every truncation length 0..80, every header field at edge values, flipped magic bytes, two-defect files, random bytes, path kinds) is opened through ClockBoundClient, ShmReader and clockbound_open (ASan+UBSan; thorough: valgrind) and each outcome compared with the decision table of the statement; then the real ShmWriter starts up and publishes over each file on tmpfs and on ext4, and new clients read back (A) while the writer lives and (B) after it is gone and the page cache was dropped; re-created files are decoded with PROTOCOL.md offsets.",
+   "Runs as root (no permission errors); FIFOs excluded; eviction by fsync + posix_fadvise(DONTNEED).",
+   "runtime monitoring: hostile-input corpus through three APIs + sanitizers/valgrind, decision-table oracle, post-crash read-back with page-cache eviction", "4/C16"),
+ "C17": ("exploration",
+   "Bytes written by the real ShmWriter are decoded with offsets transcribed by hand from docs/PROTOCOL.md and compared with the published fields; a C program compiled from clockbound.h alone, linked with libclockbound.a (ASan+UBSan, canaries) and libclockbound.so, answers the same vectors as the Rust client at the same frozen virtual instant and must agree on interval, status, error kind, errno and detail; all failing open conditions compared across the three APIs; thorough adds valgrind.",
+   "Little-endian x86-64 only; the magic's documented hex string is accepted under any of the three readings the document admits and the reading found is reported.",
+   "runtime monitoring: differential execution Rust client vs C ABI under sanitizers, hand-transcribed layout decoder", "4/C17"),
+})
+
 NOT_YET = {}
 
 
@@ -62,6 +85,7 @@ def main():
             "add_only": True,
         },
         "engines": [
+            {"name": "clientsim", "path": "harness/clientsim + harness/cdriver", "serves_properties": ["C05", "C06", "C14", "C16", "C17"], "kind_free_text": "vector sweeps through real writer/segment/client under an interposed clock; C driver against libclockbound with ASan/UBSan/valgrind"},
             {"name": "shmsim", "path": "harness/shmsim", "serves_properties": ["C02", "C03", "C04", "C11", "C18"], "kind_free_text": "token scheduler over the hooked reader/writer, stop enumeration, sequential sweeps, Miri binary"},
         ],
         "checks": checks,
